@@ -1,6 +1,6 @@
 (** * C19 — Ordered maps and sets encode as sorted entry lists and decode by collection. *)
 From SSZ Require Import Base Offsets Types Codec CodecUnfold ListDecFacts LeafIface LeafProof
-     OrderFacts RoundTrip Canon Strict.
+     OrderFacts RoundTrip Canon Strict ListView ListViewFacts.
 Open Scope N_scope.
 
 (** A map or set value is its list of entries in strictly ascending key order ([has_ty]). *)
@@ -71,6 +71,23 @@ Theorem C19_set_fixed_point :
     len (enc (TSet t) m) < 4294967296 -> dec (TSet t) (enc (TSet t) m) = Ok m.
 Proof. exact dec_set_fixed_point. Qed.
 Print Assumptions C19_set_fixed_point.
+
+(** Decoding by collection at every depth: a type with sets / maps anywhere inside it accepts exactly the
+    byte strings its entry-list view accepts ([list_view]: every set / map read as the plain list of its entries),
+    and returns the collection of the listed entries, collected innermost first ([collect_rec]).  In particular an
+    inner set listed out of order or with a duplicate is accepted and denotes the sorted duplicate-free set. *)
+Theorem C19_decode_by_collection_at_every_depth :
+  forall t bs, dec t bs = omap (collect_rec t) (dec (list_view t) bs).
+Proof. exact dec_by_collection. Qed.
+Print Assumptions C19_decode_by_collection_at_every_depth.
+
+Example C19_nested_example :
+  list_view (TMap (TUint 1) (TSet (TUint 2))) = TList (TContainer false [TUint 1; TList (TUint 2)]) /\
+  dec (TMap (TUint 1) (TSet (TUint 2))) [4; 0; 0; 0; 0; 5; 0; 0; 0; 0; 0; 0; 0]
+    = Ok (VList [VCont [VUint 0; VList [VUint 0]]]) /\
+  dec (TList (TContainer false [TUint 1; TList (TUint 2)])) [4; 0; 0; 0; 0; 5; 0; 0; 0; 0; 0; 0; 0]
+    = Ok (VList [VCont [VUint 0; VList [VUint 0; VUint 0]]]).
+Proof. vm_compute. repeat split; reflexivity. Qed.
 
 Example C19_example :
   dec (TMap (TUint 1) (TUint 1)) [3; 1; 1; 2; 3; 9; 2; 5] =
